@@ -53,7 +53,7 @@ impl Property for C07 {
         "C07"
     }
     fn rule(&self) -> String {
-        format!("histories of 1..12 operations over a 4-file workspace: edit(file, one of {NVARIANTS} text variants: every include subset x {{clean, declaration renamed, includes moved below the class}} x {{syntax error, type error, include of a missing file}}) applied server-style (edited file becomes root) or API-style (root unchanged), root switches, and disk-only changes of a file (picked up when the sources are next collected); after EVERY step the long-lived AnalysisHost's full dump (diagnostics, per workspace file: symbols, folding, links, full-range hints, definition/references/hover at every identifier, completion at 9 offsets x 2 triggers; FileId -> path; hash-ordered lists sorted) must equal the dump of a fresh host given only the current texts; family server-histories replays such histories (didOpen/didChange/didClose and rewrites of files on disk with an unchanged modification time, 1..7 events) through the real server and compares its last published diagnostics and the documentSymbol answer of every open document with a fresh analysis of disk overlaid by the open buffers. distinct = digest of history; non-trivial = >=2 edits, one changing an include set or the root, and the dump changed between two consecutive steps")
+        format!("histories of 1..12 operations over a 4-file workspace: edit(file, one of {NVARIANTS} text variants: every include subset x {{clean, declaration renamed, includes moved below the class}} x {{syntax error, type error, include of a missing file}}) applied server-style (edited file becomes root) or API-style (root unchanged), root switches, and disk-only changes of a file (picked up when the sources are next collected); after EVERY step the long-lived AnalysisHost's full dump (diagnostics, per workspace file: symbols, folding, links, full-range hints, definition/references/hover at every identifier, completion at 9 offsets x 2 triggers; FileId -> path; hash-ordered lists sorted) must equal the dump of a fresh host given only the current texts; family server-histories replays such histories (didOpen/didChange/didClose and rewrites of files on disk with an unchanged modification time - also with an unchanged length -, 1..7 events) through the real server and compares its last published diagnostics and the documentSymbol answer of every open document with a fresh analysis of disk overlaid by the open buffers. distinct = digest of history; non-trivial = >=2 edits, one changing an include set or the root, and the dump changed between two consecutive steps")
     }
     fn assumptions(&self) -> Vec<String> {
         vec!["every edit is followed by set_root_file (the only way the API (re)collects include maps); the in-memory FileSystem is updated together with set_file_content".into()]
@@ -91,7 +91,7 @@ impl Property for C07 {
             Family::new("server-histories", ctx.tier.pick(16, 400), |_c, rng, emit| {
                 for _ in 0..12 {
                     let n = 1 + rng.below(7);
-                    let ops: Vec<_> = (0..n).map(|_| json!([rng.weighted(&[6, 1, 2]), rng.below(NFILES), rng.below(NVARIANTS)])).collect();
+                    let ops: Vec<_> = (0..n).map(|_| json!([rng.weighted(&[6, 1, 2, 2]), rng.below(NFILES), rng.below(NVARIANTS)])).collect();
                     if !emit(json!({"kind": "server-hist", "ops": ops})) {
                         return;
                     }
@@ -309,7 +309,7 @@ fn server_history(case: &Case, ops: &[serde_json::Value]) -> Verdict {
         };
         let f = f as usize % NFILES;
         let name = format!("f{f}.td");
-        if kind % 3 == 1 {
+        if kind % 4 == 1 {
             // close: the disk text is the truth again; observed at the next analysed step
             if s.opened.contains(&name) {
                 s.close(&name);
@@ -317,7 +317,22 @@ fn server_history(case: &Case, ops: &[serde_json::Value]) -> Verdict {
             }
             continue;
         }
-        if kind % 3 == 2 {
+        if kind % 4 == 3 {
+            // the file is rewritten on disk with a text of the SAME length (its class is renamed K<f> <-> Q<f>,
+            // which every user of the class notices) and, as always here, the same modification time
+            let cur = disk[f].1.clone();
+            let t = if cur.contains(&format!("class K{f}")) { cur.replacen(&format!("class K{f}"), &format!("class Q{f}"), 1) } else { cur.replacen(&format!("class Q{f}"), &format!("class K{f}"), 1) };
+            s.tw.write(&name, &t);
+            disk[f].1 = t.clone();
+            if !s.opened.contains(&name) {
+                if model[&name] != t {
+                    structural = true;
+                }
+                model.insert(name.clone(), t);
+            }
+            continue;
+        }
+        if kind % 4 == 2 {
             // the file changes on disk (same modification time, as scratch files always have): the new
             // text is the truth for a document that is not open; observed at the next analysed step
             let t = variant_text(f, v as usize % NVARIANTS);
